@@ -23,8 +23,9 @@ traffic (one dsp call).  Proved here, for EVERY store, trace and run length:
 * discipline (P1), for every store and all fresh keys: the traffic the VM produces for a closure that does not escape
   is balanced (`C12_discipline_local_closure_partial` — the part of the property that holds on the pinned tree), the
   traffic it produces for a `let`-bound capturing closure is legal but leaves the closure behind
-  (`C12_discipline_let_closure_leaks`); `C12_witness_*`: the traces recorded from the real VM for the minimal
-  witnesses of the open findings are not balanced (`decide +kernel`).
+  (`C12_discipline_let_closure_leaks`), so does a function-valued argument or result
+  (`C12_discipline_fn_arg_and_result_leak`); `C12_witness_*`: the traces recorded from the real VM for the minimal
+  witnesses of the open findings are not balanced (`decide +kernel`; the check compares them with the VM every run).
 
 NOT proved: that `mirgen`/`bytecodegen` emit these fragments for every program (the generated programs' real traffic
 is judged instead, op by op, by the correspondence stage), reachability from roots (hand-over is accepted only when
